@@ -152,6 +152,16 @@ fn run_one(idx: u64, line: &Value, opts: &Opts, port: u16, stats: &mut Stats) ->
 
     let rbe: Vec<String> = state["rbe"].as_array().map(|a| a.iter().filter_map(|x| x.as_str().map(String::from)).collect()).unwrap_or_default();
     let _mocks = MockBackends::start(&ad, &rbe);
+    // the udp data path: every backend of the universe listens for datagrams (a datagram forwarded to a
+    // backend the configuration no longer holds must be seen too)
+    // (a listener that never got a frontend cannot route: histories without AddUFront are not probed with datagrams)
+    let fronted = hist.iter().any(|s| s["req"]["k"] == "AddUFront");
+    let udp_ls = if opts.faults || !fronted { Vec::new() } else { wctl::udp_listeners(&ad, &listeners) };
+    let mut udp_mocks = if udp_ls.is_empty() {
+        None
+    } else {
+        Some(wctl::UdpMocks::start(&ad, &wctl::BDEF.iter().map(|d| d.0.to_string()).collect::<Vec<_>>()))
+    };
 
     let mut w = Worker::start_empty(&name);
     // ---- the sequence, back-to-back
@@ -181,7 +191,7 @@ fn run_one(idx: u64, line: &Value, opts: &Opts, port: u16, stats: &mut Stats) ->
             accepted.push(true);
             continue;
         }
-        let request: Request = wctl::build_request(k, a, &ad).into();
+        let request: Request = wctl::build_request_full(k, a, &ad);
         // the main process's side of the same sequence
         let verdict = catch_unwind(AssertUnwindSafe(|| w.state.dispatch(&request).is_ok()));
         match verdict {
@@ -194,8 +204,31 @@ fn run_one(idx: u64, line: &Value, opts: &Opts, port: u16, stats: &mut Stats) ->
         ids.push(w.send_raw(request));
         stats.requests += 1;
     }
-    let real_ids: Vec<String> = ids.iter().filter(|s| !s.is_empty()).cloned().collect();
-    collect(&mut w, &real_ids, &mut got, quiet);
+    let mut real_ids: Vec<String> = ids.iter().filter(|s| !s.is_empty()).cloned().collect();
+    // A sentinel behind the history: requests are handled and answered in order, so once the sentinel
+    // has its answer a request of the history without one will never get it (a verdict that does not
+    // rest on a time-out), and the worker still answers after whatever the history contained.
+    let sentinel = if !state["stopped"].as_bool().unwrap_or(false) && state["shut"].as_i64().unwrap_or(0) == 0 {
+        let id = w.send_raw(RequestType::Status(sozu_command_lib::proto::command::Status {}).into());
+        real_ids.push(id.clone());
+        Some(id)
+    } else {
+        None
+    };
+    if let Some(sid) = &sentinel {
+        // (waiting for the sentinel alone is enough: every earlier answer is ahead of it in the channel)
+        collect(&mut w, std::slice::from_ref(sid), &mut got, quiet);
+        let answered = |got: &BTreeMap<String, Vec<WorkerResponse>>| got.get(sid).map(|v| v.iter().any(terminal)).unwrap_or(false);
+        if !answered(&got) && !w.is_finished() {
+            // a stalled machine, or a worker that stopped answering: give it three more quiet periods
+            collect(&mut w, std::slice::from_ref(sid), &mut got, quiet * 3);
+        }
+        if !answered(&got) {
+            viol(&mut out, "sentinel:unanswered", json!({"what": "the Status request sent behind the history got no answer", "finished": w.is_finished()}));
+        }
+    } else {
+        collect(&mut w, &real_ids, &mut got, quiet);
+    }
 
     // ---- (a) exactly one terminal answer per request, with the predicted status
     let first_soft = hist.iter().position(|s| s["req"]["k"] == "SoftStop" && s["st"] == "ok");
@@ -233,7 +266,8 @@ fn run_one(idx: u64, line: &Value, opts: &Opts, port: u16, stats: &mut Stats) ->
             continue;
         }
         let st = wctl::status_name(terms[0].status);
-        if st != step["st"].as_str().unwrap_or("") {
+        // "final": the one answer of a malformed request is Ok or Failure, the property does not say which
+        if st != step["st"].as_str().unwrap_or("") && step["st"] != "final" {
             viol(
                 &mut out,
                 &format!("status:{k}"),
@@ -363,6 +397,22 @@ fn run_one(idx: u64, line: &Value, opts: &Opts, port: u16, stats: &mut Stats) ->
         } else {
             wctl::run_probes(&ad, &listeners, Duration::from_millis(opts.wait_ms))
         };
+        let mut seen = seen;
+        if let Some(mocks) = udp_mocks.as_mut() {
+            // one datagram of a new flow through every udp listener; a round trip on the command channel
+            // (the worker has handled the datagrams by the time it answers); then what the backends got
+            let shots: Vec<wctl::UdpShot> = udp_ls.iter().map(|l| wctl::udp_shoot(&ad, l)).collect();
+            let bid = w.send_raw(RequestType::Status(sozu_command_lib::proto::command::Status {}).into());
+            collect(&mut w, std::slice::from_ref(&bid), &mut got, quiet);
+            let expect: Vec<bool> = udp_ls
+                .iter()
+                .map(|l| state["probes"][l]["d"].as_array().map(|a| a.iter().any(|x| x != "drop")).unwrap_or(false))
+                .collect();
+            let outs = wctl::udp_collect(mocks, &shots, &expect, Duration::from_millis(opts.wait_ms.max(4000) * 2), Duration::from_millis(150));
+            for (l, o) in udp_ls.iter().zip(outs) {
+                seen.entry(l.clone()).or_default().insert("d".to_string(), o);
+            }
+        }
         for (l, m) in &seen {
             for (h, outcome) in m {
                 stats.probes += 1;
@@ -529,15 +579,15 @@ fn main() {
     }
     let mut res = results.lock().unwrap();
     res.sort_by_key(|r| r.0);
-    // Fault legs: a verdict must not depend on how long the machine stalled a worker thread (every
+    // A verdict must not depend on how long the machine stalled a worker thread (every
     // wait of the replayer is a deadline). A failing run is re-executed alone, twice, with four
     // times the patience; only the violation classes seen in EVERY execution are reported. A run
     // that conforms when re-executed is counted as unstable, not as a violation.
     let mut unstable = 0u64;
     let mut unstable_classes: BTreeMap<String, u64> = BTreeMap::new();
-    if opts.faults {
+    if !opts.verbose {
         let patient = Opts { threads: 1, seed: opts.seed, sample: 0, wait_ms: opts.wait_ms * 4, verbose: false,
-                             index_base: opts.index_base + 47_000, faults: true };
+                             index_base: opts.index_base + 47_000, faults: opts.faults };
         let mut retried: BTreeMap<String, u64> = BTreeMap::new();
         let mut todo: Vec<(usize, Vec<Viol>)> = Vec::new();
         for (i, vs) in res.drain(..) {
